@@ -93,6 +93,8 @@ fn run_one(i: usize, b: &Value) -> anyhow::Result<Value> {
     let mut f_started_once = false;
     let mut notes: Vec<Value> = vec![];
     let (mut session_open, mut resumed, mut installed_idx) = (false, false, 0u64);
+    // an echoed (temporary) value the follower holds: (key, committed content before the echo); it does not survive a restart
+    let mut tmp_pending: Option<(String, Value)> = None;
     macro_rules! fail {
         ($k:expr, $what:expr, $e:expr, $a:expr) => {{
             leader.kill();
@@ -122,7 +124,7 @@ fn run_one(i: usize, b: &Value) -> anyhow::Result<Value> {
                 }
                 snaps.insert(s["index"].as_u64().unwrap(), Snap { bytes: crate::node::unhex(g["hex"].as_str().unwrap_or("")), term: g["term"].as_u64().unwrap_or(1) });
             }
-            "replicate" | "chunk" | "fstart" => {
+            "replicate" | "chunk" | "fstart" | "fecho" => {
                 if follower.is_none() {
                     if op != "fstart" && f_started_once {
                         fail!(k, "driver: follower is down at a follower step", json!("up"), json!("down"));
@@ -136,6 +138,13 @@ fn run_one(i: usize, b: &Value) -> anyhow::Result<Value> {
                     if let Some(e) = log_and_apply(f, idx, &entries[&idx])? {
                         fail!(k, "follower append/apply failed", json!("ok"), e);
                     }
+                } else if op == "fecho" {
+                    // the follower routed a publish to the leader and echoes the value (ConfigCmd::SetTmpValue)
+                    let r = f.call(&json!({"op":"cfg_tmp","data_id":s["k"],"group":crate::smreplay::GROUP,"value":s["v"]}))?;
+                    if r["res"] != "ok" {
+                        fail!(k, "follower echo failed", json!("ok"), r);
+                    }
+                    tmp_pending = Some((s["k"].as_str().unwrap_or("").to_string(), s["prev"].clone()));
                 } else if op == "chunk" {
                     let sidx = s["snap"].as_u64().unwrap();
                     if !session_open && s["c"].as_u64().unwrap_or(1) > 1 && !(s["done"] == json!(true) && installed_idx == sidx) {
@@ -179,6 +188,9 @@ fn run_one(i: usize, b: &Value) -> anyhow::Result<Value> {
                     }
                 }
                 let obs = &s["obs"];
+                if obs["tmp"].as_array().map(|a| a.is_empty()).unwrap_or(true) {
+                    tmp_pending = None; // (the model says: no temporary value left)
+                }
                 let ex = explicit(obs["last"].as_u64().unwrap_or(0), &members_at);
                 if let Some((what, e, a)) = check_obs(f, obs, ex)? {
                     if what == "STALE" && op == "chunk" && s["done"] == json!(true) {
@@ -214,9 +226,13 @@ fn run_one(i: usize, b: &Value) -> anyhow::Result<Value> {
         }
     }
     // every behaviour ends with: (re)start the follower and look again - what it serves must survive
-    if let Some(obs) = last_obs {
+    if let Some(mut obs) = last_obs {
         if let Some(f) = follower.take() {
             f.stop()?;
+        }
+        if let Some((key, prev)) = tmp_pending.take() {
+            // (FStart in the model: the committed prefix; the echoed value is gone)
+            obs["sm"]["cfg"][key.as_str()]["content"] = prev;
         }
         let mut f = NodeProc::start_env(&df, 300, &fenv)?;
         let ex = explicit(obs["last"].as_u64().unwrap_or(0), &members_at);
